@@ -1254,7 +1254,7 @@ LEVEL_TEXT = ("Proved in Lean 4 over unbounded integers (the C int arithmetic is
               "parse(format) = instant for the LONG, SHORT, HTTP and (to the millisecond) FULL formats for every instant of years 0..9999 (format_parse; "
               "the formatter's month names are keys of the parser's month map); an ISO string with "
               "offset +-hh:mm, +-hhmm or +-hh denotes local -+ offset for every two-digit hh, mm; Date(String) and Date(String, fmt) never read beyond "
-              "the terminator and return invalid or a value, for every byte string (parse_total, parse_fmt_total); the double storage: Date(ms/1000.0) is modelled exactly as the dyadic n/2^k (toDouble, integer arithmetic, no Float), it is a nearest binary64 value with a 53-bit significand for every millisecond of years 1..9999, the exact floor(t*1000+0.5) on it (and on any dyadic strictly within half a millisecond) is ms, so split and every format through the double are those of the integer model and FULL parses back to ms (stored_double_is_nearest, stored_double_53bit, roundMs_of_any_close_double, stored_double_shows_ms, format_parse_stored_double; K op dbl compares n, k, the rounding, the fields and FULL with the real double via frexp, python as_integer_ratio as reference); Date + s and Date - s for whole seconds s (exact sum rounded to binary64 again, addSecD) are shown as exactly ms + 1000 s whenever the result is in years 1..9999, and operator< on stored dates is the order of the instants (add_seconds_exact, stored_order_is_instant_order; K ops addsec, cmp), the double a - b of two stored dates is shown as exactly the difference of the instants in milliseconds (difference_exact; K op diff). Tie to the code: yearFromTime, the "
+              "the terminator and return invalid or a value, for every byte string (parse_total, parse_fmt_total); the double storage: Date(ms/1000.0) is modelled exactly as the dyadic n/2^k (toDouble, integer arithmetic, no Float), it is a nearest binary64 value with a 53-bit significand for every millisecond of years 1..9999, the exact floor(t*1000+0.5) on it (and on any dyadic strictly within half a millisecond) is ms, so split and every format through the double are those of the integer model and FULL parses back to ms (stored_double_is_nearest, stored_double_53bit, roundMs_of_any_close_double, stored_double_shows_ms, format_parse_stored_double; K op dbl compares n, k, the rounding, the fields and FULL with the real double via frexp, python as_integer_ratio as reference); Date + s and Date - s for whole seconds s (exact sum rounded to binary64 again, addSecD) are shown as exactly ms + 1000 s whenever the result is in years 1..9999, and operator< on stored dates is the order of the instants (add_seconds_exact, sum_is_binary64, stored_order_is_instant_order; K ops addsec, cmp), the double a - b of two stored dates is shown as exactly the difference of the instants in milliseconds (difference_exact; K op diff). Tie to the code: yearFromTime, the "
               "macros and all tables are regenerated into Lean from src/Date.cpp (G); calc/construct/format/parsers are hand transcriptions compared "
               "with the real library (K) on every generated input, and the library is compared with an independent days-from-civil oracle on every "
               "day of years 1..9999 at three times of day (thorough) and every second of sampled days.")
